@@ -2,7 +2,9 @@ package merge
 
 import (
 	"fmt"
+	"os"
 	"reflect"
+	"regexp"
 	"sort"
 	"strings"
 
@@ -257,10 +259,98 @@ func (d *dumper) taskCoq(t *ast.Task) string {
 	return d.pool.term("task", text)
 }
 
+// ---- templates of include statements: `{{.NAME}}` / `{{.NAME | default "x"}}` ----
+
+type tplSeg struct {
+	Lit, Name, Def string
+	IsVar          bool
+}
+
+var tplRe = regexp.MustCompile(`\{\{\s*\.([A-Za-z_][A-Za-z0-9_]*)\s*(?:\|\s*default\s+"([^"]*)"\s*)?\}\}`)
+
+// parseTpl splits a template of the generated family into segments; ok=false when something else is left.
+func parseTpl(s string) ([]tplSeg, bool) {
+	var out []tplSeg
+	pos := 0
+	for _, m := range tplRe.FindAllStringSubmatchIndex(s, -1) {
+		if m[0] > pos {
+			out = append(out, tplSeg{Lit: s[pos:m[0]]})
+		}
+		sg := tplSeg{IsVar: true, Name: s[m[2]:m[3]]}
+		if m[4] >= 0 {
+			sg.Def = s[m[4]:m[5]]
+		}
+		out = append(out, sg)
+		pos = m[1]
+	}
+	if pos < len(s) {
+		out = append(out, tplSeg{Lit: s[pos:]})
+	}
+	for _, sg := range out {
+		if !sg.IsVar && (strings.Contains(sg.Lit, "{{") || strings.Contains(sg.Lit, "}}")) {
+			return out, false
+		}
+	}
+	return out, true
+}
+
+func evalTpl(segs []tplSeg, env map[string]string) string {
+	var sb strings.Builder
+	for _, sg := range segs {
+		if !sg.IsVar {
+			sb.WriteString(sg.Lit)
+		} else if v := env[sg.Name]; v != "" {
+			sb.WriteString(v)
+		} else {
+			sb.WriteString(sg.Def)
+		}
+	}
+	return sb.String()
+}
+
+// tplVarNames collects the variables the templates of a tree refer to (for the "$ENV" pseudo file).
+func tplVarNames(s string, into map[string]bool) {
+	segs, _ := parseTpl(s)
+	for _, sg := range segs {
+		if sg.IsVar {
+			into[sg.Name] = true
+		}
+	}
+}
+
+func (d *dumper) tplCoq(s string) string {
+	segs, _ := parseTpl(s)
+	items := make([]string, len(segs))
+	for i, sg := range segs {
+		if sg.IsVar {
+			items[i] = fmt.Sprintf("(TVar %s %s)", d.S(sg.Name), d.S(sg.Def))
+		} else {
+			items[i] = fmt.Sprintf("(TLit %s)", d.S(d.path(sg.Lit)))
+		}
+	}
+	return cg.List(items)
+}
+
+// envFileCoq: the process environment, restricted to the names the templates use, as the pseudo file "$ENV".
+func (d *dumper) envFileCoq(names map[string]bool) string {
+	var kvs [][2]string
+	var ns []string
+	for n := range names {
+		ns = append(ns, n)
+	}
+	sort.Strings(ns)
+	for _, n := range ns {
+		if v, ok := os.LookupEnv(n); ok {
+			kvs = append(kvs, [2]string{n, "v=" + v})
+		}
+	}
+	return fmt.Sprintf("(Build_file %s false %s %s [] [] [] None)", cg.Str(""), cg.Str(""), d.kvList(kvs))
+}
+
 func (d *dumper) includeCoq(in *ast.Include) string {
-	return fmt.Sprintf("(Build_include %s %s %s %s %s %s %s %s %s %s)",
+	return fmt.Sprintf("(Build_include %s %s %s %s %s %s %s %s %s %s %s %s)",
 		d.S(in.Namespace), d.S(d.path(in.Taskfile)), d.S(d.path(in.Dir)), cg.Bool(in.Optional), cg.Bool(in.Internal), cg.Bool(in.Flatten), cg.Bool(in.AdvancedImport),
-		d.SL(in.Aliases), d.SL(in.Excludes), d.kvList(d.vars(in.Vars)))
+		d.SL(in.Aliases), d.SL(in.Excludes), d.kvList(d.vars(in.Vars)), d.tplCoq(in.Taskfile), d.tplCoq(in.Dir))
 }
 
 func (d *dumper) tasksCoq(ts *ast.Tasks) string {
